@@ -131,6 +131,14 @@ def g_write(seq, cls: str, opts, entry: str = "stream_frames_gen", bindings=()) 
         out = io.BytesIO()
         g_sink(seq, bindings).serialize(out)
         return out.getvalue()
+    if entry == "flat_to_file_default":  # options guessed from the first statement
+        out = io.BytesIO()
+        gser.flat_stream_to_file((s for s in stmts), out)
+        return out.getvalue()
+    if entry == "grouped_to_file_default":
+        out = io.BytesIO()
+        gser.grouped_stream_to_file((s for s in [g_sink(seq, bindings)]), out)
+        return out.getvalue()
     raise ValueError(entry)
 
 
@@ -234,6 +242,11 @@ def r_write(seq, cls: str, opts, entry: str = "stream_frames_gen", bindings=()) 
         out = io.BytesIO()
         rser.flat_stream_to_file((s for s in stmts), out, opts)
         return out.getvalue()
+    if entry == "flat_to_file_default":
+        stmts = [T.st_to_rdflib(s) for s in seq]
+        out = io.BytesIO()
+        rser.flat_stream_to_file((s for s in stmts), out)
+        return out.getvalue()
     g = r_graph(seq, bindings, EMPTY_GRAPHS if entry.endswith("+empty") else ())
     entry = entry.split("+")[0]
     if entry == "stream_frames_graph":
@@ -246,6 +259,10 @@ def r_write(seq, cls: str, opts, entry: str = "stream_frames_gen", bindings=()) 
         return g.serialize(format="jelly", options=opts, encoding="utf-8")
     if entry == "graph_serialize_default":
         return g.serialize(format="jelly", encoding="utf-8")
+    if entry == "grouped_to_file_default":
+        out = io.BytesIO()
+        rser.grouped_stream_to_file((x for x in [g]), out)
+        return out.getvalue()
     if entry == "grouped_to_file":
         out = io.BytesIO()
         rser.grouped_stream_to_file((x for x in [g]), out, options=opts)
